@@ -1009,6 +1009,11 @@ func (rl *Shell) viYankWholeLine() {
 		epos--
 	}
 
+	// The line might be made of this newline only.
+	if epos < bpos {
+		epos = bpos
+	}
+
 	// Pass the buffer to register.
 	buffer := (*rl.line)[bpos:epos]
 	rl.Buffers.Write(buffer...)
